@@ -208,6 +208,38 @@ def call_list(seed):
                 k = 98 - (CC.Num(t + b) * 100) % 97
                 calls += [["natl", b, t], ["fields", f"{b}{k:02d}{t}"], ["iban", f"{b}{k:02d}{t}", True]]
                 n_pairs += 1
+    # registry keys longer than the bank code (bic_lookup_components: PL, SI ...): IBANs of two keys that share the bank
+    # code part, looked up one after the other (memo tables keyed by the bank code alone)
+    idx = _registry.get("bank_code")
+    for cc in ccs:
+        fields = tab[cc].get("bic_lookup_components")
+        if not fields or len(fields) < 2:
+            continue
+        pos = tab[cc].get("positions", {})
+        w0 = pos.get(fields[0], [0, 0])
+        w0 = w0[1] - w0[0]
+        groups = {}
+        for (c2, code) in idx:
+            if c2 == cc and len(code) > w0:
+                groups.setdefault(code[:w0], []).append(code)
+        n_g = 0
+        for head, codes in sorted(groups.items()):
+            if len(codes) < 2 or n_g >= 3:
+                continue
+            n_g += 1
+            for code in codes[:3]:
+                cl = CC.classes(tab[cc]["bban_spec"])
+                bban = ["A" if k == "a" else "0" for k in cl]
+                off = 0
+                for f in fields:
+                    a, b = pos.get(f, [0, 0])
+                    bban[a:b] = code[off:off + (b - a)]
+                    off += b - a
+                if off != len(code):
+                    continue
+                t_ = "".join(bban)
+                k = 98 - (CC.Num(t_ + cc) * 100) % 97
+                calls.append(["fields", f"{cc}{k:02d}{t_}"])
     calls += [["lookup", "DE", "43060967"], ["lookup", "DE", "01010101"], ["frombank", "FR", "30004"],
               ["frombank", "PL", "10100055"], ["bankof", "DE89370400440532013000"], ["bankof", "PL61109010140000071219812874"]]
     return calls
